@@ -4,7 +4,7 @@ EXPLANATION = ("Bounded symbolic execution of the real taskTrace.Do / taskTrace.
                "symbolic scheduler (every channel operation is a scheduling point, the choice at each step is an SMT variable).")
 ASSUMPTIONS = ["task timeout = 0 in C08.a (the timeout goroutine returns immediately)",
                "C08.c: the task node is a stand-in answering every request with an error and the chosen handler; flow loop, retry arithmetic and error traces are the real code; tracer replaced by the synchronous stub",
-               "declared-only storage of results (ApplyTaskResult / ApplyTaskDataOutput) is not covered"]
+               "C08.b: ApplyTaskResult / ApplyTaskDataOutput executed sequentially with symbolic declaration and supply sets; the path from an answer through genericTask.run into the locator is covered only by the C01 task scenarios (no results)"]
 SCENARIOS = [
     dict(name="C08.a Do x1", entry="VerifC08a_Do1", K=40, reach=["quiescent"], bounds="1 Do call, 1 consumer",
          expect_obligations=["every Do call returns", "the consumer receives exactly one response"]),
@@ -29,4 +29,7 @@ SCENARIOS = [
          expect_obligations=["exit: the token stops"]),
     dict(name="C08.c no handler", entry="VerifC08c_NoHandler", K=60, reach=["quiescent"], overrides=STD, native=False, bounds="error without handler",
          expect_obligations=["no handler or skip: the token continues after the error trace"]),
+    dict(name="C08.b declared-only storage", entry="VerifC08b_DeclaredOnly", K=20, reach=["built"], sequential=True, max_instr=3000000,
+         bounds="3 names x declared/undeclared x supplied/not supplied (all 64 combinations), results extension present/absent, 64-bit symbolic values",
+         expect_obligations=["exactly the declared and supplied result fields are stored", "exactly the declared and supplied data outputs are stored"]),
 ]
